@@ -91,12 +91,12 @@ Definition json_of_request (cfg : config) (b : builder) : json :=
 
 Definition body_of (cfg : config) (b : builder) : bytes := print_json (json_of_request cfg b).
 
-(* request_builder.rs:253-284 headers *)
+(* request_builder.rs:253-284 headers; names as http::HeaderName normalises them (lower case) *)
 Definition headers_of (cfg : config) (b : builder) : list (bytes * bytes) :=
   [(s2b "content-type", s2b "application/json");
-   (s2b "X-Goog-Update-Updater", cfg_name cfg);
-   (s2b "X-Goog-Update-Interactivity", match p_source (b_params b) with OnDemand => s2b "fg" | ScheduledTask => s2b "bg" end)]
-  ++ match b_entries b with e :: _ => [(s2b "X-Goog-Update-AppId", a_id (e_app e))] | [] => [] end.
+   (s2b "x-goog-update-updater", cfg_name cfg);
+   (s2b "x-goog-update-interactivity", match p_source (b_params b) with OnDemand => s2b "fg" | ScheduledTask => s2b "bg" end)]
+  ++ match b_entries b with e :: _ => [(s2b "x-goog-update-appid", a_id (e_app e))] | [] => [] end.
 
 (* http::HeaderValue::try_from(String): visible ASCII, tab, or obs-text *)
 Definition header_value_ok (v : bytes) : bool :=
